@@ -178,3 +178,68 @@ impl FileSystem for FaultFs {
         Ok(())
     });
 }
+
+/// Lists one extra name in one directory that no other call knows about: what a directory looks
+/// like when an entry disappears between the listing and the next call on it (walk_dir then gets
+/// an error from `metadata` for an entry it was just told about).
+#[derive(Debug)]
+pub struct GhostFs {
+    pub inner: Arc<dyn FileSystem>,
+    pub dir: String,
+    pub name: String,
+}
+
+impl FileSystem for GhostFs {
+    fn read_dir(&self, path: &str) -> VfsResult<Box<dyn Iterator<Item = String> + Send>> {
+        let it = self.inner.read_dir(path)?;
+        if path == self.dir {
+            let mut v: Vec<String> = it.collect();
+            v.insert(v.len() / 2, self.name.clone());
+            Ok(Box::new(v.into_iter()))
+        } else {
+            Ok(it)
+        }
+    }
+    fn create_dir(&self, path: &str) -> VfsResult<()> {
+        self.inner.create_dir(path)
+    }
+    fn open_file(&self, path: &str) -> VfsResult<Box<dyn SeekAndRead + Send>> {
+        self.inner.open_file(path)
+    }
+    fn create_file(&self, path: &str) -> VfsResult<Box<dyn SeekAndWrite + Send>> {
+        self.inner.create_file(path)
+    }
+    fn append_file(&self, path: &str) -> VfsResult<Box<dyn SeekAndWrite + Send>> {
+        self.inner.append_file(path)
+    }
+    fn metadata(&self, path: &str) -> VfsResult<VfsMetadata> {
+        self.inner.metadata(path)
+    }
+    fn set_creation_time(&self, path: &str, time: SystemTime) -> VfsResult<()> {
+        self.inner.set_creation_time(path, time)
+    }
+    fn set_modification_time(&self, path: &str, time: SystemTime) -> VfsResult<()> {
+        self.inner.set_modification_time(path, time)
+    }
+    fn set_access_time(&self, path: &str, time: SystemTime) -> VfsResult<()> {
+        self.inner.set_access_time(path, time)
+    }
+    fn exists(&self, path: &str) -> VfsResult<bool> {
+        self.inner.exists(path)
+    }
+    fn remove_file(&self, path: &str) -> VfsResult<()> {
+        self.inner.remove_file(path)
+    }
+    fn remove_dir(&self, path: &str) -> VfsResult<()> {
+        self.inner.remove_dir(path)
+    }
+    fn copy_file(&self, src: &str, dest: &str) -> VfsResult<()> {
+        self.inner.copy_file(src, dest)
+    }
+    fn move_file(&self, src: &str, dest: &str) -> VfsResult<()> {
+        self.inner.move_file(src, dest)
+    }
+    fn move_dir(&self, src: &str, dest: &str) -> VfsResult<()> {
+        self.inner.move_dir(src, dest)
+    }
+}
